@@ -26,9 +26,32 @@ def languages():
 
 # ---------------------------------------------------------------- currencies
 
+def _snapshot():
+    """Facts about the world that config.json only transcribes - a currency's minor-unit digits, symbol and symbol placement, the UTC
+    offset of a zone abbreviation - as they stand in the shipped tables at the pinned commit (scverif/tables_snapshot.json). The
+    tables of the tree under test say which entries exist; for an entry both know, the snapshot wins, so one slipped entry among
+    161 / 191 makes the oracle and the implementation disagree."""
+    global _snap
+    if _snap is None:
+        with open(os.path.join(os.path.dirname(os.path.abspath(__file__)), 'tables_snapshot.json'), encoding='utf-8') as f:
+            _snap = json.load(f)
+    return _snap
+
+
+_snap = None
+
+
 def currencies():
     """lower-case code -> info dict (code, symbol, decimalDigits, symbolOnLeft, ...)"""
-    return {k.lower(): v for k, v in config()['currencies'].items()}
+    snap = _snapshot()['currencies']
+    out = {}
+    for k, v in config()['currencies'].items():
+        v = dict(v)
+        known = snap.get(k.lower())
+        if known is not None:
+            v['symbol'], v['symbolOnLeft'], v['spaceBetweenAmountAndSymbol'], v['decimalDigits'] = known
+        out[k.lower()] = v
+    return out
 
 
 def currency_alias():
@@ -61,7 +84,13 @@ ZONE_RE = re.compile(r'^[A-Z]{2,4}$')
 
 
 def zones():
-    return dict(config()['timezones'])
+    """zone abbreviation -> offset in minutes: the entries of the tree under test, with the offsets of known abbreviations taken from
+    the snapshot; an abbreviation the table has lost is still a zone"""
+    snap = _snapshot()['timezones']
+    out = {k: snap.get(k, v) for k, v in config()['timezones'].items()}
+    for k, v in snap.items():
+        out.setdefault(k, v)
+    return out
 
 
 def all_words(lang):
